@@ -246,8 +246,16 @@ CLAIMS = {
               "shift); C12_sentences_never_error, C12_nonsentence_not_accepted, C12_error_expected_nonempty; the same at the byte level "
               "of LR.parse for single-character lexers (C12_bytes_*: offset, expected list = terminals with a non-empty cell). Tie A: "
               "tparse, byte-level model and real LRParser on every input vs an independent Earley viable-prefix oracle (offset, "
-              "line/column, expected list). PARTIAL: the GLR half and termination (that a non-sentence eventually returns the error) "
-              "are decided by the oracle on the real parsers only."),
+              "line/column, expected list). GLR half (Props/C12Glr.lean, over the engine model Model/Glr.lean under Cert.glr + "
+              "Cert.completeRN + Cert.viable, all executed on every real right-nulled table, and the token-level lexer hypothesis "
+              "LexDet): C12_glr_sentences_never_error, C12_glr_ok_only_on_sentence (an Ok result has a non-empty forest and the tokens "
+              "are a sentence), C12_glr_nonsentence_errors, C12_glr_error_at_first_offending_token (the error sits at the position "
+              "after the layout before token k, the expected list is non-empty, tok[0..k) is a viable prefix, tok[0..k] is not / the "
+              "input is no sentence at the end), C12_glr_error_index_is_first_offending (k is the length of the longest viable "
+              "prefix); the engine model is tied to the real GlrParser by C03's correspondence, the real GLR errors are compared with "
+              "the same oracle here. PARTIAL: termination (that a non-sentence eventually returns the error) is a theorem for LR with "
+              "the default lexer only (C15_lr_terminates), a hypothesis for GLR; LexDet is a hypothesis (validated per input by the "
+              "correspondence runs); the CONTENT of the GLR expected list is compared with the oracle only."),
         design_ref="5/C12",
         note=TRUST + "; scope: reduced grammars (every nonterminal productive) in C01/C03 scope",
         technique="Lean 4 proof (valid-prefix property of LR over verified table certificates) + differential correspondence + Earley viable-prefix oracle"),
